@@ -689,6 +689,77 @@ theorem insert_block_comment (cfg : ScanCfg) (hcfg : ScanP.CfgOK cfg) (f : Nat) 
   show ¬ (t.ty != TokTy.COMMENT) = true
   rw [ht]; decide
 
+/-- a piece of layout that may stand between two lines: blanks / blank lines, a `;` comment line behind indentation, or
+    a `/* … */` comment behind indentation -/
+inductive Filler
+  | blanks (ws : List Char)
+  | line (ws cs : List Char)
+  | block (ws body : List Char)
+
+def Filler.text : Filler → List Char
+  | .blanks ws => ws
+  | .line ws cs => ws ++ ';' :: (cs ++ ['\n'])
+  | .block ws body => ws ++ '/' :: '*' :: (body ++ ['*', '/'])
+
+def Filler.Ok : Filler → Prop
+  | .blanks ws => ws.all isBlank = true
+  | .line ws cs => ws.all isBlank = true ∧ ∀ x ∈ cs, x ≠ '\n'
+  | .block ws body => ws.all isBlank = true ∧ ScanS.NoClose body
+
+def fillerText : List Filler → List Char
+  | [] => []
+  | c :: rest => c.text ++ fillerText rest
+
+open ScanS ScanX in
+/-- **any mixture of blank lines, indentation, `;` comment lines and `/* */` comments between two lines changes no token
+    the parser sees**: for a newline-terminated `p` that scans without error, every list of well-formed fillers and every
+    following text `r`, the non-COMMENT tokens of `p ++ fillers ++ r` have the types and texts of those of `p ++ r`, and the
+    two scans end alike (`blank_lines_between`, `insert_comment_line`, `insert_block_comment` chained) -/
+theorem insert_fillers (cfg : ScanCfg) (hcfg : ScanP.CfgOK cfg) (f : Nat) (p r : List Char)
+    (he : Ends p.toArray) (hok : (scan cfg .initial f p).error = none) :
+    ∀ (fs : List Filler), (∀ c ∈ fs, c.Ok) →
+    codeKeys (scan cfg .initial f (p ++ (fillerText fs ++ r))).toks = codeKeys (scan cfg .initial f (p ++ r)).toks ∧
+    (scan cfg .initial f (p ++ (fillerText fs ++ r))).error.map errKey = (scan cfg .initial f (p ++ r)).error.map errKey := by
+  intro fs
+  induction fs with
+  | nil => intro _; exact ⟨rfl, rfl⟩
+  | cons c rest ih =>
+    intro h
+    obtain ⟨i1, i2⟩ := ih (fun x hx => h x (List.mem_cons_of_mem _ hx))
+    have hc := h c List.mem_cons_self
+    cases c with
+    | blanks ws =>
+      obtain ⟨k1, k2⟩ := blank_lines_between cfg hcfg f p ws (fillerText rest ++ r) he hok hc
+      have e : fillerText (Filler.blanks ws :: rest) ++ r = ws ++ (fillerText rest ++ r) := by
+        simp [fillerText, Filler.text]
+      rw [e]
+      exact ⟨by unfold codeKeys; rw [k1]; exact i1, k2.trans i2⟩
+    | line ws cs =>
+      obtain ⟨k1, k2⟩ := insert_comment_line cfg hcfg f p ws cs (fillerText rest ++ r) he hok hc.1 hc.2
+      have e : fillerText (Filler.line ws cs :: rest) ++ r = ws ++ ';' :: (cs ++ '\n' :: (fillerText rest ++ r)) := by
+        simp [fillerText, Filler.text]
+      rw [e]
+      exact ⟨k1.trans i1, k2.trans i2⟩
+    | block ws body =>
+      obtain ⟨k1, k2⟩ := insert_block_comment cfg hcfg f p ws body (fillerText rest ++ r) he hok hc.1 hc.2
+      have e : fillerText (Filler.block ws body :: rest) ++ r =
+          ws ++ '/' :: '*' :: (body ++ '*' :: '/' :: (fillerText rest ++ r)) := by
+        simp [fillerText, Filler.text]
+      rw [e]
+      exact ⟨k1.trans i1, k2.trans i2⟩
+
+/-- non-vacuity of `insert_fillers`: three well-formed fillers, and the conclusion observed on them (a test) -/
+example : (Filler.blanks "\n  ".toList).Ok ∧ (Filler.line "\t".toList " it's /* {".toList).Ok ∧ (Filler.block " ".toList "/ nop\n /".toList).Ok := by
+  refine ⟨?_, ⟨?_, ?_⟩, ⟨?_, ?_⟩⟩
+  · show "\n  ".toList.all isBlank = true; decide
+  · show "\t".toList.all isBlank = true; decide
+  · show ∀ x ∈ " it's /* {".toList, x ≠ '\n'; decide
+  · show " ".toList.all isBlank = true; decide
+  · show ScanS.NoClose "/ nop\n /".toList; unfold ScanS.NoClose; decide
+example : codeKeys (scan cfgX .initial 0 ("nop\n".toList ++ (fillerText [.blanks "\n  ".toList, .line "\t".toList " it's /* {".toList,
+      .block " ".toList "/ nop\n /".toList, .blanks "\n".toList] ++ "lda #1\n".toList))).toks =
+    codeKeys (scan cfgX .initial 0 ("nop\n".toList ++ "lda #1\n".toList)).toks := by decide +kernel
+
 /-- non-vacuity of `insert_comment_line`: its hypotheses hold for "nop⏎", indentation "  ⇥", the comment text
     " it's /* {" and the sample configuration; and the conclusion observed on that sample (a test) -/
 example : ScanX.Ends "nop\n".toList.toArray ∧ (scan cfgX .initial 0 "nop\n".toList).error = none ∧
